@@ -1,8 +1,63 @@
 import GceTcb.Base.Line
-/- Driver handler for stream `c08sev` (stub: replaced when the property's model lands). -/
-namespace GceTcb.Drive.C08Sev
-open GceTcb
+import GceTcb.Drive.C04
+/-
+Driver handler for stream `c08sev` (SEV half of C08: totality of firmware analysis).
 
-def handle (_f : Fields) : String := "unimplemented"
+  c08sev op=map fw=<image>                       ovmf.GetFwGUIDToBlockMap
+  c08sev op=extract es=<0|1> snp=<0|1> fw=<image>  ovmf.SevData.ExtractFromFirmware
+  c08sev op=ld … / op=snp …                      as in stream c04 (sev.LaunchDigest / sev.UnsignedSnp)
+  c08sev op=ldclass vcpus= product= fw=          sev.LaunchDigest, outcome class only
+
+Outputs: `ok …` with the parsed values in canonical form, `reject=<class>`, `panic=<site>`.
+The image syntax is that of Drive/C04.lean.
+-/
+namespace GceTcb.Drive.C08Sev
+open GceTcb GceTcb.Codecs GceTcb.GuidTable GceTcb.SevMeta
+
+def insertSorted (x : String) : List String → List String
+  | [] => [x]
+  | y :: ys => if x ≤ y then x :: y :: ys else y :: insertSorted x ys
+
+def sortStrings (l : List String) : List String := l.foldl (fun acc x => insertSorted x acc) []
+
+def showMap (m : BlockMap) : String :=
+  "ok n=" ++ toString m.length ++ " " ++
+    ",".intercalate (sortStrings (m.map fun p => hexEncode p.1 ++ ":" ++ toString p.2.length ++ ":" ++ hexEncode (p.2.take 24)))
+
+def map (fw : Bytes) : String :=
+  match getFwGUIDToBlockMap fw with
+  | .ok m => showMap m
+  | .err c => "reject=" ++ c
+  | .panic s => "panic=" ++ Drive.C04.panicFn s
+
+def extract (es snp : Bool) (fw : Bytes) : String :=
+  match extractFromFirmware es snp fw with
+  | .ok (rb, secs) =>
+    "ok reset=" ++ (match rb with
+      | some r => toString r.addr ++ ":" ++ toString r.size ++ ":" ++ hexEncode r.guid
+      | none => "none") ++
+    " secs=" ++ (match secs with
+      | some [] => "empty"
+      | some l => ",".intercalate (l.map fun s => toString s.address ++ ":" ++ toString s.length ++ ":" ++ toString s.kind)
+      | none => "none")
+  | .err c => "reject=" ++ c
+  | .panic s => "panic=" ++ Drive.C04.panicFn s
+
+/-- sev.LaunchDigest, outcome class only: the model run with the trivial hash `H0` (control flow does
+    not depend on the hash) -/
+def ldclass (f : Fields) (fw : Bytes) : String :=
+  match SevLd.launchDigest SevLd.H0 Drive.C04.cfg ⟨f.int "vcpus", f.nat "product"⟩ fw with
+  | .ok _ => "ok"
+  | .err c => "reject=" ++ c
+  | .panic s => "panic=" ++ Drive.C04.panicFn s
+
+def handle (f : Fields) : String :=
+  match f.get "op" with
+  | "map" => map (Drive.C04.image (f.get "fw"))
+  | "extract" => extract (f.bool "es") (f.bool "snp") (Drive.C04.image (f.get "fw"))
+  | "ldclass" => ldclass f (Drive.C04.image (f.get "fw"))
+  | "ld" => Drive.C04.handle f
+  | "snp" => Drive.C04.handle f
+  | _ => "bad-op"
 
 end GceTcb.Drive.C08Sev
